@@ -20,8 +20,18 @@ RULE = ('(construct) every length 1..300 (quick) / 1..4096 (thorough) x a list o
         'space flag, refusal of a repeated transform. Non-trivial = length not a power of two, or a setter history with '
         '>=2 setter calls including set_length, or a transform case with a non-constant array; distinct = spec hash.')
 ASSUMPTIONS = ['round-trip tolerance 16*eps*(log2 N+2)*||r f||_2/r_i + 16 eps |f_i| (FFT backward-error bound), never an absolute number',
-               'length >= 1, spacing > 0 finite; arrays real, finite, |entries| between 1e-12 and 1e3 times an overall factor 1e-100 .. 1e100 (squares stay representable: no underflow in the transform or in the bound)']
+               'length >= 1, spacing > 0 finite; arrays real, finite, |entries| between 1e-12 and 1e3 times an overall factor 1e-200 .. 1e150 (every entry and every transform sum stays a normal double)']
 EPS = np.finfo(float).eps
+
+
+def snorm(x):
+    """2-norm that neither underflows nor overflows for representable data (scale by the largest entry first)."""
+    x = np.asarray(x, dtype=float)
+    m = float(np.max(np.abs(x))) if x.size else 0.0
+    if m == 0.0 or not math.isfinite(m):
+        return m
+    return m * float(np.linalg.norm(x / m))
+
 K_ROUND = 16.0
 
 
@@ -238,7 +248,7 @@ class Setters(History):
 def fwd_bound(dom, f):
     n = dom.length
     x = dom.DST_II_coeffs * f
-    return K_ROUND * EPS * (math.log2(n) + 2) * 2.0 * math.sqrt(n) * np.linalg.norm(x) / dom.k + K_ROUND * EPS * 0
+    return K_ROUND * EPS * (math.log2(n) + 2) * 2.0 * math.sqrt(n) * snorm(x) / dom.k + K_ROUND * EPS * 0
 
 
 def roundtrip_vector(dom, f, out, sig):
@@ -249,20 +259,20 @@ def roundtrip_vector(dom, f, out, sig):
     if np.shape(F) != (n,) or np.shape(back) != (n,):
         out.fail(sig + 'transform-shape', 'transform output has the wrong shape')
         return None
-    tol = K_ROUND * EPS * lg * np.linalg.norm(dom.r * f) / dom.r + K_ROUND * EPS * np.abs(f)
+    tol = K_ROUND * EPS * lg * snorm(dom.r * f) / dom.r + K_ROUND * EPS * np.abs(f)
     err = np.abs(back - f)
     if np.any(err > tol) or not np.all(np.isfinite(back)):
         i = int(np.argmax(err / np.maximum(tol, 1e-300)))
         out.fail(sig + 'roundtrip-real', 'to_real(to_fourier(f)) != f: |err|=%.3g > bound %.3g at i=%d (length=%d dr=%r dk=%r)' % (
             err[i], tol[i], i, n, dom.dr, dom.dk))
     G = dom.to_fourier(dom.to_real(f))     # read f as a Fourier-space array
-    tol = K_ROUND * EPS * lg * np.linalg.norm(dom.k * f) / dom.k + K_ROUND * EPS * np.abs(f)
+    tol = K_ROUND * EPS * lg * snorm(dom.k * f) / dom.k + K_ROUND * EPS * np.abs(f)
     err = np.abs(G - f)
     if np.any(err > tol) or not np.all(np.isfinite(G)):
         i = int(np.argmax(err / np.maximum(tol, 1e-300)))
         out.fail(sig + 'roundtrip-fourier', 'to_fourier(to_real(F)) != F: |err|=%.3g > bound %.3g at j=%d (length=%d dr=%r dk=%r)' % (
             err[i], tol[i], i, n, dom.dr, dom.dk))
-    return float(np.max(np.abs(back - f) / np.maximum(K_ROUND * EPS * lg * np.linalg.norm(dom.r * f) / dom.r + K_ROUND * EPS * np.abs(f), 1e-300)))
+    return float(np.max(np.abs(back - f) / np.maximum(K_ROUND * EPS * lg * snorm(dom.r * f) / dom.r + K_ROUND * EPS * np.abs(f), 1e-300)))
 
 
 class Transforms(Sub):
@@ -276,14 +286,15 @@ class Transforms(Sub):
             'f': specs.array_desc(), 'g': specs.array_desc(),
             'a': specs.signed(-6, 2), 'b': specs.signed(-6, 2),
             'rank': st.integers(1, 4), 'm': specs.array_desc(),
-            # overall magnitude of the arrays: the transforms are linear, so 1e-100 .. 1e100 must behave like O(1)
-            'scale_exp': st.sampled_from([0, 0, 0, -100, 100]),
+            # overall magnitude of the arrays: the transforms are linear, so 1e-200 .. 1e150 must behave like O(1)
+            # (the bounds use an overflow/underflow-safe norm: squaring 1e-200 would give a bound of 0)
+            'scale_exp': st.sampled_from([0, 0, 0, -200, 150, -100, 100]),
         })
 
     def check(self, spec):
         P = target()
         out = Outcome()
-        sig = PID + '/transforms/'
+        sig = PID + '/' + self.name + '/'
         dom = build.domain(spec['domain'])
         n = dom.length
         if not build.grid_ok(dom):
@@ -302,7 +313,7 @@ class Transforms(Sub):
         for name, T, coeff, div in (('fourier', dom.to_fourier, dom.DST_II_coeffs, dom.k), ('real', dom.to_real, dom.DST_III_coeffs, dom.r)):
             lhs = T(a * f + b * g)
             rhs = a * T(f) + b * T(g)
-            scale = (np.linalg.norm(coeff * (a * f + b * g)) + abs(a) * np.linalg.norm(coeff * f) + abs(b) * np.linalg.norm(coeff * g))
+            scale = (snorm(coeff * (a * f + b * g)) + abs(a) * snorm(coeff * f) + abs(b) * snorm(coeff * g))
             tol = K_ROUND * EPS * lg * 2.0 * math.sqrt(n) * scale / div + K_ROUND * EPS * (np.abs(lhs) + np.abs(rhs))
             if np.any(np.abs(lhs - rhs) > tol):
                 out.fail(sig + 'linearity-' + name, 'T(a f + b g) != a T(f) + b T(g) for to_%s' % name,
@@ -355,7 +366,7 @@ class Transforms(Sub):
             for i in range(rank):
                 for j in range(i, rank):
                     col = before[:, i, j]
-                    tol = K_ROUND * EPS * lg * np.linalg.norm(grid * col) / grid + K_ROUND * EPS * np.abs(col)
+                    tol = K_ROUND * EPS * lg * snorm(grid * col) / grid + K_ROUND * EPS * np.abs(col)
                     if np.any(np.abs(MA.data[:, i, j] - col) > tol):
                         out.fail(sig + 'matrix-roundtrip', 'MatrixArray round trip (%s first) does not restore pair (%d,%d)' % (direction, i, j))
             if MA.space != src_space:
@@ -382,4 +393,17 @@ class Transforms(Sub):
         return out
 
 
-SUBS = [Construct(), ConstructRandom(), Setters(), Transforms()]
+class LongGrids(Transforms):
+    name = 'long-grids'
+    doc = 'the transforms sub-check on long grids (3 000 .. 70 000 points: powers of two, round decimal, prime and arbitrary lengths)'
+    budget = {'quick': 48, 'thorough': 1600}
+
+    def strategy(self, tier):
+        n = st.one_of(st.sampled_from([4096, 8192, 16384, 32768, 65536, 5000, 10000, 20000, 50000, 3142, 3143, 10007, 65537]), st.integers(3000, 70000))
+        dom = st.builds(lambda n, s, which: {'length': n, which: s}, n, specs.spacing(), st.sampled_from(['dr', 'dr', 'dk']))
+        return st.fixed_dictionaries({
+            'domain': dom, 'f': specs.array_desc(), 'g': specs.array_desc(), 'a': specs.signed(-6, 2), 'b': specs.signed(-6, 2),
+            'rank': st.integers(1, 2), 'm': specs.array_desc(), 'scale_exp': st.sampled_from([0, 0, 0, -200, 150])})
+
+
+SUBS = [Construct(), ConstructRandom(), Setters(), Transforms(), LongGrids()]
